@@ -130,7 +130,12 @@ def model (line : String) : String :=
 
 def judge (case impl : String) : String :=
   match words case with
-  | [_, _, _] => "skip"                       -- raw bytes: no syntax tree, correspondence only
+  | [_, _, _] =>
+    -- raw bytes: no syntax tree, so no expected tokens - but the extractor must still END (value or error)
+    let i := impl.trimAscii.toString
+    if i == "hang" then "bad nontermination raw stream"
+    else if i.startsWith "panic" || i.startsWith "crash" then "bad panic raw stream"
+    else "skip"
   | [_, d, hex, enc] =>
     match d.toNat?, bytesOfHex hex, decProg enc with
     | some d, some s, some p =>
@@ -140,6 +145,7 @@ def judge (case impl : String) : String :=
         let e := showExpected (expected p)
         let i := impl.trimAscii.toString
         if e == i then "ok"
+        else if i == "hang" then s!"bad nontermination expected={e}"
         else if i.startsWith "panic" || i.startsWith "crash" then s!"bad panic expected={e}"
         else if e == "err" then s!"bad accepts-invalid expected=err"
         else if i == "err" then s!"bad rejects-valid expected={e}"
